@@ -1,6 +1,6 @@
 """C05 result columns are exactly the final frame: names, count and order."""
 import collections, itertools, json, random, re
-import vlib, relgen, relcheck, starexpand
+import vlib, relgen, relcheck, starexpand, sstrgen
 from vlib import vh_batch, drv_batch
 from props.c01 import SAFE, FULL, UNDECL
 
@@ -21,7 +21,12 @@ MANIFEST = dict(
          "requests, where the hook's own answer is also judged against the statements of the theorems); the property itself is checked on the implementation: the column "
          "names/count/order SQLite reports for the emitted SQL vs the final frame of the compiler's own RQ (relation.columns) and "
          "the generator's frame, for programs with explicit columns, wildcards, repeated names, joins of tables sharing names, "
-         "sort-then-project and take inside group.",
+         "sort-then-project and take inside group; and for relations whose columns the compiler has to INFER (tools/sstrgen.py): `from s\"SELECT ...\"` with "
+         "every select list of <= 3 (thorough 4) items over 14 item kinds (bare, qualified, aliased with/without AS, expression, function, `*`, `t.*`, quoted, CASE, "
+         "sub-select, upper-case, literal; 39 kinds for pairs) x statement shapes (keyword case, DISTINCT/ALL, comments, WHERE/ORDER/LIMIT, joins, UNION, parentheses, "
+         "interpolation) x follow-up steps (filter, derive, select, exclusion, take, sort, aggregate, group, window, join on either side, append, let), relation "
+         "literals and from_text (csv, both json layouts), plus random compositions: the inner SQL text run BY ITSELF on SQLite tells the relation's true "
+         "columns, the frame semantics of the pipeline gives the expected result columns of the compiled program.",
     note="The alias layer is not mirrored in Lean (covered by the result-column comparison only); whether the Lowerer's requests "
          "always satisfy the hypothesis WF of wildcards_exact is not proved (exercised from source by the exclusion stream). Dialects other than sqlite/generic are compared on the text of the final projection, not executed.",
     technique="Lean 4 proofs on the select-item deduplication kernel (hook-level correspondence) + result-column oracle on SQLite", ref="4/C05")
@@ -177,7 +182,9 @@ def run(ctx):
     ctx.rule = ("(i) deduplicate_select_items: every list of <= 4 items over a 4-identifier alphabet (compound 1-2 parts / alias / other) "
                 "exhaustively + random longer lists, real function (hook) vs Lean mirror; translate_wildcards: every request of <= 4 column ids "
                 "over {2 known + star, 1 known + star, 1 computed} + random instances/requests, hook vs mirror and hook vs theorem statements; (ii) generated programs x databases: names, "
-                "count and order of the SQLite result columns vs the RQ's final frame; non-trivial = compiled, executed, >= 2 columns")
+                "count and order of the SQLite result columns vs the RQ's final frame; (v) inferred frames: s-string select lists (grid) x shapes x steps, "
+                "literals / from_text, random compositions: result columns vs (columns SQLite reports for the inner SQL alone, pushed through the frame "
+                "semantics of the pipeline), names compared case-insensitively; non-trivial = compiled, executed, >= 2 columns")
     if not (br.cargo_ok and br.drv_ok):
         return
     quick = ctx.tier == "quick"
@@ -332,6 +339,45 @@ def run(ctx):
                                     "expected_columns": expect, "db": c.db, "schema": c.schema_list, "class": fid},
                                    det_key=None if label.endswith("seed") else (c.prql, d))
 
+    # (v) relations whose columns the compiler INFERS (s-strings with every kind of select item, relation literals, from_text) and what
+    # a pipeline makes of that frame.  Oracle: the s-string's SQL text run by itself on SQLite gives the relation's true columns; the frame
+    # semantics of the pipeline gives the expected result columns (tools/sstrgen.py)
+    con = sstrgen.connect()
+
+    def inferred_stream(label, cases, det, targets=("sql.sqlite",)):
+        cases = [c for c in cases if c is not None]
+        for ti, target in enumerate(targets):
+            sub = cases if ti == 0 else cases[ti::7]              # the other SQLite-executable dialects on a slice
+            comp = vh_batch([{"op": "compile", "prql": c.prql, "target": target} for c in sub])
+            for c, a in zip(sub, comp):
+                if "sql" not in a:
+                    ctx.count(f"{label}:not-compiled")
+                    continue
+                names, err = sstrgen.names_of(con, a["sql"])
+                if err:
+                    ctx.count(f"{label}:sqlite-error (C01/C07 matter)")
+                    continue
+                ctx.case((c.prql, target), nontrivial=len(names) >= 2)
+                ctx.count(f"{label}:{c.src.tag}:{c.src.order if c.src.tag == 'sstring' else 'told'}")
+                if c.src.tag == "sstring" and c.src.order == "exact" and "*" not in c.inner.split("FROM")[0] and len(c.src.names) >= 2 and \
+                        re.search(r"SELECT (?:[^()]*, )?(?:\w+\.)?\*", a["sql"]):
+                    ctx.count(f"{label}:s-string with un-named items, wildcard kept to the result")
+                fid = sstrgen.judge(c, names, a["sql"])
+                if fid is None:
+                    if len(ctx.samples) < 6 and det and c.src.tag == "sstring" and len(c.steps) >= 1 and len(names) >= 4 and "qual" in str(c.inner).lower() + "qual":
+                        ctx.sample({"prql": c.prql, "sql": a["sql"][:300], "result_columns": names, "columns_of_the_inner_sql_run_alone": c.src.names})
+                    continue
+                ctx.oracle_failure(fid or None, f"result columns {names} but the final frame is {c.expect} (the s-string / literal by itself has columns {c.src.names})",
+                                   {"suite": "inferred", "prql": c.prql, "target": target, "sql": a["sql"], "observed_columns": names, "expected_columns": c.expect,
+                                    "source_columns": c.src.names, "inner_sql": c.inner, "steps": c.steps, "class": fid or None},
+                                   det_key=(c.prql, target) if det else None)
+
+    inferred_stream("inferred-grid", sstrgen.grid(con, 3 if quick else 4, full=quick), True, ("sql.sqlite", "sql.generic", "sql.postgres"))
+    inferred_stream("inferred-grid-steps", sstrgen.grid_steps(con, 2 if quick else 3), True)
+    inferred_stream("inferred-told", sstrgen.told(con), True)
+    inferred_stream("inferred-random", sstrgen.rand(con, random.Random(5056), 4000 if quick else 30000), True)
+    inferred_stream("inferred-seed", sstrgen.rand(con, ctx.rng, 3000 if quick else 30000), False, ("sql.sqlite", "sql.generic"))
+
     fixed = random.Random(505)
     rename_stream("rename", random.Random(5051), 250 if quick else 2000, SAFE)
     rename_stream("rename-seed", ctx.rng, 150 if quick else 2000, SAFE)
@@ -353,6 +399,15 @@ def replay(obj):
         m = drv_batch([wc_line(c, d, i)])[0]
         print(json.dumps({"cols": c, "decls": d, "instances": i, "recorded": {"real": r.get("real"), "model": r.get("model")}}, indent=1))
         print("now: real", wc_text(a), "| model", m, "| WF", wc_wf(c, d, i), "| judged:", wc_judge(c, d, i, a) or "ok")
+        return 0
+    if r.get("suite") == "inferred":
+        con = sstrgen.connect()
+        a = vh_batch([{"op": "compile", "prql": r["prql"], "target": r["target"]}])[0]
+        print(r["prql"])
+        print("inner SQL by itself:", r.get("inner_sql"), "->", sstrgen.names_of(con, r["inner_sql"]) if r.get("inner_sql") else None)
+        print("sql now:", a.get("sql", a))
+        print("result columns now:", sstrgen.names_of(con, a["sql"]) if "sql" in a else None, "| expected (final frame):", r["expected_columns"],
+              "| recorded:", r["observed_columns"])
         return 0
     from props import c01
     return c01.replay(obj)
